@@ -161,8 +161,11 @@ def accumulate_indices_means_vars(data, means):
     for i in range(n_clusters):
         means_sum[i] = np.sum(data[closest_centroid_indices == i], axis=0)
     for i in range(n_clusters):
+        # square in double precision: the squares of narrow integer samples
+        # (e.g. uint8 pixels) do not fit the samples' own type
         variances_sum[i] = np.sum(
-            data[closest_centroid_indices == i] ** 2, axis=0
+            np.square(data[closest_centroid_indices == i], dtype=float),
+            axis=0,
         )
     return closest_centroid_indices, means_sum, variances_sum
 
